@@ -157,7 +157,7 @@ def check_case(case, ctx):
 
 
 def reach(counters, tier, info):
-    k = 1 if tier == "quick" else 8
+    k = 0.5 if tier == "quick" else 8
     out = []
     for name, key, need in [("consensuses judged", "consensuses", 3000 * k),
                             ("scores supplied by the algorithm itself", "supplied_scores", 800 * k),
